@@ -36,6 +36,7 @@ type candidate struct {
 	Choices  []int64
 	Outcome  string // after native replay: "reproduced", "not-reproduced", ""
 	Dir      string
+	Key      string
 	Observed []obsJSON
 }
 
@@ -84,6 +85,7 @@ type Shared struct {
 	deadline  time.Time
 	stop      bool
 	noMerge   bool
+	byFirst   map[int64]int
 }
 
 type xcheck struct {
@@ -246,7 +248,7 @@ func (w *Worker) runPath(fn *ssa.Function, prefix []int64) (alts [][]int64) {
 	ex := &Exec{w: w, ts: NewTermStore(), prefix: prefix,
 		slotCache: map[types.Type]int{}, globals: map[*ssa.Global]*Obj{}, sentinels: map[string]IfaceV{},
 		covers: map[string]bool{}, classes: map[string]*Term{}, symSeq: map[string]int{},
-		funcs: map[string]bool{}, maxStep: sh.maxSteps, vsets: map[string]*byteSet{}, pcSet: map[*Term]bool{}, entangled: map[string]bool{}}
+		funcs: map[string]bool{}, maxStep: sh.maxSteps, vsets: map[string]*byteSet{}, unaryBy: map[string][]*Term{}, pcSet: map[*Term]bool{}, entangled: map[string]bool{}}
 	main := &G{id: 0, resume: make(chan bool)}
 	ex.gs = []*G{main}
 	ex.cur, ex.main = main, main
@@ -338,6 +340,9 @@ func (w *Worker) runPath(fn *ssa.Function, prefix []int64) (alts [][]int64) {
 	}
 	for c := range ex.covers {
 		sh.covers[c] = true
+	}
+	if len(ex.inputs) > 0 && ex.inputs[0].Kind == "choose" {
+		sh.byFirst[ex.inputs[0].Conc]++
 	}
 	for f := range ex.funcs {
 		sh.funcs[f] = true
@@ -438,16 +443,28 @@ func (w *Worker) handleViolation(ex *Exec) {
 	syms := sh.inputSyms(v.Inputs)
 	// 1. a violation outside every known class
 	key := v.Kind + "|" + v.Site
+	{
+		var on []string
+		for n, c := range v.Classes {
+			if c.IsTrue() {
+				on = append(on, n)
+			}
+		}
+		sort.Strings(on)
+		key += "|" + strings.Join(on, ",")
+	}
 	sh.mu.Lock()
 	nAlready := sh.candKeys[key]
 	sh.mu.Unlock()
-	if nAlready < 3 {
-		r, model := w.solver.CheckModel(v.PC, ts.BNot(anyClass), syms)
+	if nAlready < 2 {
+		spc, sc := ex.sliced(v.PC, ts.BNot(anyClass))
+		r, model := w.solver.CheckModel(spc, sc, syms)
+		ex.completeModel(model, syms)
 		if r == Unknown {
 			w.noteUnknown("violation model")
 		}
 		if r == Sat {
-			c := &candidate{Harness: sh.harness, Kind: v.Kind, Site: v.Site, Msg: v.Msg, Inputs: renderInputs(v.Inputs, model), Choices: v.Choices}
+			c := &candidate{Harness: sh.harness, Kind: v.Kind, Site: v.Site, Msg: v.Msg, Inputs: renderInputs(v.Inputs, model), Choices: v.Choices, Key: key}
 			sh.mu.Lock()
 			sh.cands = append(sh.cands, c)
 			sh.candKeys[key]++
@@ -472,7 +489,9 @@ func (w *Worker) handleViolation(ex *Exec) {
 		if seen {
 			continue
 		}
-		r, model := w.solver.CheckModel(v.PC, c, syms)
+		spc, sc := ex.sliced(v.PC, c)
+		r, model := w.solver.CheckModel(spc, sc, syms)
+		ex.completeModel(model, syms)
 		if r == Sat {
 			cd := &candidate{Harness: sh.harness, Kind: v.Kind, Site: v.Site, Msg: v.Msg, Known: k, Inputs: renderInputs(v.Inputs, model), Choices: v.Choices}
 			sh.mu.Lock()
@@ -506,10 +525,12 @@ func (w *Worker) makeWitness(ex *Exec) {
 			Syms(t, seen, syms)
 		}
 	}
-	r, model := w.solver.CheckModel(ex.pc, nil, syms)
+	spc, _ := ex.sliced(ex.pc, nil)
+	r, model := w.solver.CheckModel(spc, nil, syms)
 	if r != Sat {
 		return
 	}
+	ex.completeModel(model, syms)
 	c := &candidate{Harness: sh.harness, Kind: "witness", Inputs: renderInputs(ex.inputs, model), Choices: ex.decisions}
 	memo := map[*Term]uint64{}
 	for _, o := range ex.observe {
@@ -558,7 +579,7 @@ func exploreHarness(prog *ssa.Program, fn *ssa.Function, opt runOpts, known []kn
 	sh := &Shared{prog: prog, tier: opt.tier, unwind: opt.unwind, maxSteps: opt.maxSteps, seed: opt.seed,
 		solverKind: opt.solver, timeoutMS: opt.timeoutMS, known: known, mapRotate: opt.mapRotate,
 		covers: map[string]bool{}, outside: map[string]int{}, candKeys: map[string]int{}, knownSeen: map[string]*candidate{},
-		funcs: map[string]bool{}, inconcl: map[string]int{}, initPkgs: map[string]bool{}, harness: fn.Name()}
+		funcs: map[string]bool{}, inconcl: map[string]int{}, initPkgs: map[string]bool{}, harness: fn.Name(), byFirst: map[int64]int{}}
 	if opt.budgetS > 0 {
 		sh.deadline = t0.Add(time.Duration(opt.budgetS) * time.Second)
 	}
@@ -608,6 +629,16 @@ func exploreHarness(prog *ssa.Program, fn *ssa.Function, opt runOpts, known []kn
 					}
 					fmt.Fprintf(os.Stderr, "queries=%d solverTime=%.1f pathWall=%.1f inflight=%d ", q, qt, pw, sh.inflight)
 					fmt.Fprintf(os.Stderr, "progress: paths=%d done=%d assumed=%d viol=%d queue=%d merges=%d branches=%d maxdepth=%d inconcl=%v\n", sh.stats.paths, sh.stats.done, sh.stats.assumed, sh.stats.violations, len(sh.work), sh.stats.merges, sh.stats.branches, sh.stats.maxDepth, sh.inconcl)
+					type kv struct{ k int64; v int }
+					var kvs []kv
+					for k, v := range sh.byFirst {
+						kvs = append(kvs, kv{k, v})
+					}
+					sort.Slice(kvs, func(i, j int) bool { return kvs[i].v > kvs[j].v })
+					if len(kvs) > 8 {
+						kvs = kvs[:8]
+					}
+					fmt.Fprintf(os.Stderr, "  byFirst(top)=%v\n", kvs)
 					sh.mu.Unlock()
 				}
 			}
@@ -662,4 +693,25 @@ func tail(s []string, n int) []string {
 		return s[len(s)-n:]
 	}
 	return s
+}
+
+// completeModel gives symbols the solver never saw (constrained only by unary conjuncts) a value
+// from their value set.
+func (ex *Exec) completeModel(model map[string]uint64, syms map[string]uint8) {
+	if model == nil {
+		return
+	}
+	for n := range syms {
+		if _, ok := model[n]; ok {
+			continue
+		}
+		if bs, ok := ex.vsets[n]; ok {
+			for v := 0; v < 256; v++ {
+				if bs[v/64]&(1<<uint(v%64)) != 0 {
+					model[n] = uint64(v)
+					break
+				}
+			}
+		}
+	}
 }
